@@ -1303,6 +1303,7 @@ class A:
         self.ctx = Ctx(self.tu)
         self.fns = {}
         self.folds = []                   # ring indices decided by evaluation: (function, what, exhaustive, text)
+        self.tus = {}                     # other parsed translation units, by file
         base = os.path.basename(MAIN)
         for name, d in self.tu.functions.items():
             if os.path.basename(d.get("_file") or "") == base and any(kind(c) == "CompoundStmt" for c in kids(d)):
@@ -3099,6 +3100,34 @@ class Ptr:
         return isinstance(o, Ptr) and o.obj is self.obj and o.key == self.key
 
 
+class Rec(dict):
+    """A struct object: member name -> value; `rec` is the record's name (None: a synthetic object)."""
+    rec = None
+
+
+class BytePtr:
+    """(char *)p [- offsetof(..)]: the intermediate values of container_of().  Only the cast back to an object
+    pointer gives them a meaning (ContPtr); every other use is outside the evaluator's vocabulary."""
+    __slots__ = ("inner", "off")
+
+    def __init__(self, inner, off):
+        self.inner, self.off = inner, off
+
+
+class ContPtr(Ptr):
+    """container_of(inner, T, m): pointer to the object that holds *inner as its member m.  T and m are resolved where
+    the pointer is used (CEval.cont_member).  As a Ptr it compares equal to a container pointer formed from the same
+    inner pointer only, and designates no object (obj[key] does not exist): a plain dereference is no verdict."""
+    __slots__ = ("inner",)
+
+    def __init__(self, inner):
+        Ptr.__init__(self, inner.obj, ("container of", inner.key))
+        self.inner = inner
+
+
+MEM_FUNCS = ("memcpy", "memmove", "memset")
+
+
 class CEval:
     """Concrete interpreter of the C subset the scheduler helpers are written in, on the clang AST: integers with the
     exact conversions of the resolved types (IntegralCast nodes, assignment to a narrower object, usual arithmetic
@@ -3116,6 +3145,9 @@ class CEval:
         self.statics = {}
         self.globals = {}
         self._types = {}
+        self._fields = {}
+        self.lazy_globals = False         # True: file-scope objects defined in the TU are created (with their initialiser) on first use
+        self.externs = {}                 # name -> callable(args): models of functions without a body in the TU
 
     # -- types / objects
     def itype(self, tdict):
@@ -3137,7 +3169,11 @@ class CEval:
             name = q[len("struct "):].strip()
             if name not in self.tu.records:
                 raise NoVerdict("object of unknown type %s" % qt)
-            return {f: self.make(t, zero) for (f, t) in self.tu.record_fields(name)}
+            if name not in self._fields:
+                self._fields[name] = self.tu.record_fields(name)
+            r = Rec((f, self.make(t, zero)) for (f, t) in self._fields[name])
+            r.rec = name
+            return r
         if q.startswith("union "):
             raise NoVerdict("union object")
         return 0 if zero else UNDEF
@@ -3146,7 +3182,9 @@ class CEval:
         if isinstance(v, list):
             return [self.copy(x) for x in v]
         if isinstance(v, dict):
-            return {k: self.copy(x) for k, x in v.items()}
+            r = Rec((k, self.copy(x)) for k, x in v.items())
+            r.rec = getattr(v, "rec", None)
+            return r
         return v
 
     def tick(self):
@@ -3158,6 +3196,8 @@ class CEval:
     def call(self, name, args):
         f = self.tu.functions.get(name)
         if f is None or not any(kind(c) == "CompoundStmt" for c in kids(f)):
+            if name in self.externs:
+                return self.externs[name](args)
             raise NoVerdict("call of %s(), which has no body in this translation unit" % name)
         params = self.tu.fparams(f)
         if len(params) != len(args):
@@ -3318,14 +3358,99 @@ class CEval:
         if isinstance(v, list):
             return [self.zero(x) for x in v]
         if isinstance(v, dict):
-            return {k: self.zero(x) for k, x in v.items()}
+            r = Rec((k, self.zero(x)) for k, x in v.items())
+            r.rec = getattr(v, "rec", None)
+            return r
         return 0
+
+    def global_object(self, name):
+        """A file-scope object the translation unit defines, created with its initialiser on first use (static storage:
+        zero where nothing is written; the object is registered before its initialiser is evaluated, so that
+        LLIST_HEAD(x) = { &x, &x } can refer to itself)."""
+        d = self.tu.vars.get(name)
+        if d is None or d.get("storageClass") == "extern" or kind(self.tu.parent.get(id(d)) or {}) != "TranslationUnitDecl":
+            raise NoVerdict("reference to %s, an object outside the evaluated state" % name)
+        qt = d.get("type", {}).get("desugaredQualType") or d.get("type", {}).get("qualType", "")
+        q = strip_const(qt)
+        init = kids(d)[-1] if d.get("init") and kids(d) else None
+        if q.endswith("]") or (q.startswith(("struct ", "union ")) and "*" not in q):
+            obj = self.globals[name] = self.make(qt, zero=True)
+            if init is not None:
+                i0 = strip(init)
+                if kind(i0) != "InitListExpr":
+                    raise NoVerdict("initialiser of %s" % name)
+                self.init_list(obj, i0, {"<fn>": "<initialiser of %s>" % name})
+        else:
+            self.globals[name] = 0
+            if init is not None:
+                self.globals[name] = self.rv(init, {"<fn>": "<initialiser of %s>" % name})
+
+    def pointee_record(self, e):
+        """Record name of the struct the pointer expression e points to by its static type."""
+        t = e.get("type", {})
+        q = strip_const(t.get("desugaredQualType") or t.get("qualType") or "")
+        if q.startswith("struct ") and q.endswith("*") and q.count("*") == 1:
+            name = strip_const(q[len("struct "):-1]).strip()
+            if name in self.tu.records:
+                return name
+        raise NoVerdict("member access through a container pointer of static type %s" % (t.get("qualType"),))
+
+    def cont_member(self, p, n, base):
+        """lvalue of p->member for p = container_of(inner, T, m).  T is the static type of the pointer expression, m the
+        one member of T that has the type of *inner (the macro's __mptr declaration type-checks it; an ambiguous or
+        missing member is no verdict).  p->m is *inner, whatever inner points into (the list head itself ends a
+        llist_for_each_entry loop that way); any other member exists only when inner really is the address of member m
+        of a struct T object."""
+        rec = self.pointee_record(base)
+        inner = p.inner
+        target = self.get((inner.obj, inner.key))
+        trec = getattr(target, "rec", None)
+        if trec is None:
+            raise NoVerdict("container_of() of a pointer to a non-struct object")
+        cands = [f for (f, t) in self.tu.record_fields(rec) if strip_const(t or "").strip() == "struct " + trec]
+        if len(cands) != 1:
+            raise NoVerdict("container_of(): struct %s has %d members of type struct %s" % (rec, len(cands), trec))
+        m = cands[0]
+        if n.get("name") == m:
+            return (inner.obj, inner.key)
+        D = inner.obj
+        if isinstance(D, Rec) and D.rec == rec and inner.key == m and n.get("name") in D:
+            return (D, n.get("name"))
+        raise NoVerdict("access to member %s of the struct %s around an object that is not inside one" % (n.get("name"), rec))
+
+    def mem_call(self, name, ks, fr):
+        """memcpy / memmove / memset over exactly one whole object: (dst, src | 0, sizeof(type of that object))."""
+        if len(ks) != 4:
+            raise NoVerdict("%s() with %d arguments" % (name, len(ks) - 1))
+        dst, src, size = self.rv(ks[1], fr), self.rv(ks[2], fr), self.rv(ks[3], fr)
+        if not isinstance(dst, Ptr) or isinstance(dst, ContPtr):
+            raise NoVerdict("%s() to something that is not an object pointer" % name)
+        old = self.get((dst.obj, dst.key))
+
+        def fits(v):
+            if isinstance(v, Rec) and v.rec is not None:
+                return size == ("sizeof", "struct " + v.rec)
+            return False
+        if not fits(old):
+            raise NoVerdict("%s() whose size is not the sizeof of the destination object" % name)
+        if name == "memset":
+            if src != 0:
+                raise NoVerdict("memset() with a fill value other than 0")
+            new = self.zero(old)
+        else:
+            if not isinstance(src, Ptr) or isinstance(src, ContPtr):
+                raise NoVerdict("%s() from something that is not an object pointer" % name)
+            new = self.get((src.obj, src.key))
+            if not fits(new) or new.rec != old.rec:
+                raise NoVerdict("%s() between objects of different types" % name)
+        self.put((dst.obj, dst.key), new)
+        return dst
 
     # -- values
     def truth(self, v):
         if isinstance(v, int):
             return v != 0
-        if isinstance(v, Ptr) or (isinstance(v, tuple) and v and v[0] == "fn"):
+        if isinstance(v, Ptr) or (isinstance(v, tuple) and v and v[0] in ("fn", "addr")):
             return True
         raise NoVerdict("branch on %s" % ("an uninitialised value" if v is UNDEF else "a non-scalar"))
 
@@ -3382,6 +3507,8 @@ class CEval:
                     return (fr, rd["id"])
                 if rd["id"] in self.statics:
                     return (self.statics, rd["id"])
+                if rd.get("name") not in self.globals and self.lazy_globals and rd.get("kind") == "VarDecl":
+                    self.global_object(rd.get("name"))
                 if rd.get("name") in self.globals:
                     return (self.globals, rd.get("name"))
                 raise NoVerdict("reference to %s, an object outside the evaluated state" % rd.get("name"))
@@ -3389,6 +3516,8 @@ class CEval:
         if k == "MemberExpr":
             if n.get("isArrow"):
                 p = self.rv(ks[0], fr)
+                if isinstance(p, ContPtr):
+                    return self.cont_member(p, n, ks[0])
                 if not isinstance(p, Ptr):
                     raise NoVerdict("-> through %s" % ("NULL" if p == 0 else "a non-pointer"))
                 base = self.get((p.obj, p.key))
@@ -3440,14 +3569,23 @@ class CEval:
                 return conv(self.num(v, "a conversion"), t)
             if ck in ("NoOp", "BitCast"):
                 v = self.rv(ks[0], fr)
+                if ck == "BitCast" and isinstance(v, BytePtr):
+                    if v.off is None:
+                        raise NoVerdict("cast of a byte pointer")
+                    return ContPtr(v.inner)         # (T *)((char *)p - offsetof(T, m)): see cont_member
                 if ck == "BitCast" and isinstance(v, Ptr):
                     src = strip_const(strip(ks[0], casts=False).get("type", {}).get("qualType", ""))
                     dst = strip_const(n.get("type", {}).get("qualType", ""))
+                    if dst in ("char *", "unsigned char *") and src != dst and not isinstance(v, ContPtr):
+                        return BytePtr(v, None)
                     if src != dst and "void" not in dst:
                         raise NoVerdict("pointer cast %s -> %s" % (src, dst))
                 return v
             if ck == "NullToPointer":
                 return 0
+            if ck == "IntegralToPointer":
+                v = self.num(self.rv(ks[0], fr), "a conversion to a pointer")
+                return 0 if v == 0 else ("addr", v)     # LLIST_POISON: a non-NULL value that designates no object
             if ck in ("PointerToBoolean", "IntegralToBoolean"):
                 return int(self.truth(self.rv(ks[0], fr)))
             if ck == "ToVoid":
@@ -3461,8 +3599,22 @@ class CEval:
         if k == "UnaryExprOrTypeTraitExpr":
             v = self.tu.fold(n)
             if v is None:
+                t = strip_const(sizeof_operand_type(n) or "").strip() if n.get("name") == "sizeof" else ""
+                if t.startswith("struct ") and "*" not in t and "[" not in t:
+                    return ("sizeof", t)          # the size of a whole struct object: meaningful to memcpy / memset only
                 raise NoVerdict("sizeof that does not fold")
             return v
+        if k == "OffsetOfExpr":
+            return ("offsetof", n.get("id"))      # meaningful inside container_of() only
+        if k == "StmtExpr":
+            body = ks[0] if ks and kind(ks[0]) == "CompoundStmt" else None
+            inner = kids(body) if body is not None else []
+            if not inner:
+                raise NoVerdict("empty statement expression")
+            for x in inner[:-1]:
+                if self.stmt(x, fr) is not None:
+                    raise NoVerdict("jump out of a statement expression")
+            return self.rv(inner[-1], fr)
         if k == "DeclRefExpr":
             rd = n.get("referencedDecl", {})
             if rd.get("kind") == "EnumConstantDecl":
@@ -3523,9 +3675,19 @@ class CEval:
                 return int(self.truth(self.rv(ks[0], fr)) and self.truth(self.rv(ks[1], fr)))
             if op == "||":
                 return int(self.truth(self.rv(ks[0], fr)) or self.truth(self.rv(ks[1], fr)))
+            if op == "/" and kind(strip(ks[0])) == kind(strip(ks[1])) == "UnaryExprOrTypeTraitExpr":
+                v = self.tu.fold(n)               # ARRAY_SIZE(x): sizeof(x) / sizeof(x[0])
+                if v is not None:
+                    return v
             a, b = self.rv(ks[0], fr), self.rv(ks[1], fr)
+            if isinstance(a, BytePtr) or isinstance(b, BytePtr):
+                if op == "-" and isinstance(a, BytePtr) and a.off is None and isinstance(b, tuple) and b[:1] == ("offsetof",):
+                    return BytePtr(a.inner, b[1])
+                raise NoVerdict("arithmetic on a byte pointer")
             if op in ("==", "!="):
                 if isinstance(a, Ptr) or isinstance(b, Ptr) or isinstance(a, tuple) or isinstance(b, tuple):
+                    if isinstance(a, Ptr) and isinstance(b, Ptr) and isinstance(a, ContPtr) != isinstance(b, ContPtr):
+                        raise NoVerdict("comparison of a container_of() pointer with an object pointer")
                     if isinstance(a, Ptr):
                         eq = a.same(b)
                     elif isinstance(b, Ptr):
@@ -3577,6 +3739,9 @@ class CEval:
             if not (kind(callee) == "DeclRefExpr" and callee.get("referencedDecl", {}).get("kind") == "FunctionDecl"):
                 raise NoVerdict("indirect call")
             name = callee["referencedDecl"].get("name")
+            if name in MEM_FUNCS and name not in self.tu.functions or (
+                    name in MEM_FUNCS and not any(kind(c) == "CompoundStmt" for c in kids(self.tu.functions[name]))):
+                return self.mem_call(name, ks, fr)
             args = [self.rv(x, fr) for x in ks[1:]]
             if name in IO_FUNCS:
                 return 0
@@ -4624,6 +4789,441 @@ def r9_order_initialised(a, sort):
          "%s() in the same call on every path, for every fill level of the bucket" % name, want, found, bad is None, fn.f)
 
 
+# ---------------------------------------------------------------- R10 / R11 scheduling calls folded on boundary witnesses
+
+FOLD_ERRORS = (TypeError, KeyError, IndexError, ValueError, AttributeError, RecursionError)
+END_SET_CB = ("fn", "tdma_end_set")
+
+
+def pattern_text(pattern):
+    """{item x 3, END_FRAME, item, END_SET}"""
+    out = []
+    for k, grp in itertools.groupby(pattern):
+        n = len(list(grp))
+        word = "item" if k == "I" else "END_FRAME"
+        out.append(word if n == 1 else "%s x %d" % (word, n))
+    return "{%s}" % ", ".join(out + ["END_SET"])
+
+
+class SchedWorld:
+    """The scheduler ring as one concrete object (l1s.tdma_sched: every bucket, fill count and item slot) on which
+    tdma_schedule() / tdma_schedule_set() are evaluated by the concrete interpreter (CEval: the functions' clang AST is
+    folded, helpers followed, nothing is executed).  One world is reused over the witness runs: `reset` restores the
+    empty ring, sets the ring position and pre-stores items."""
+
+    def __init__(self, a):
+        self.a = a
+        self.ev = ev = CEval(a.tu)
+        self.sched = sched = ev.make("struct tdma_scheduler", zero=True)
+        bk = sched.get("bucket")
+        if not isinstance(bk, list) or len(bk) != a.NFR or any(
+                not isinstance(B, dict) or not isinstance(B.get("item"), list) or len(B["item"]) != a.NCB for B in bk):
+            raise NoVerdict("ring layout")
+        l1s = Rec()
+        l1s["tdma_sched"] = sched
+        ev.globals["l1s"] = l1s
+        self.sig = {}
+        for name, n in (("tdma_schedule", 6), ("tdma_schedule_set", 3)):
+            f = a.tu.func(name)
+            if len(a.tu.fparams(f)) != n:
+                raise AnalysisError("%s(): expected %d parameters (frame offset first) -- unclassifiable" % (name, n))
+            self.sig[name] = f
+        self.pre = {}
+        self.blank = ev.make("struct tdma_sched_item", zero=True)
+
+    def reset(self, cur, fills):
+        ev = self.ev
+        self.pre = {}
+        for b, B in enumerate(self.sched["bucket"]):
+            n = fills.get(b, 0)
+            items = B["item"]
+            if B["num_items"] != 0 or n or any(it["cb"] != 0 for it in items):
+                for k in range(len(items)):
+                    items[k] = ev.copy(self.blank)
+            for k in range(n):
+                it = items[k]
+                it["cb"] = ("fn", "<item #%d already in bucket %d>" % (k, b))
+                it["p1"], it["p2"], it["p3"], it["prio"] = k, b, 7, k
+                self.pre[it["cb"]] = (b, dict(it))
+            B["num_items"] = n
+        self.sched["cur_bucket"] = cur
+        self.cur = cur
+
+    def call(self, name, args):
+        self.ev.steps = 0
+        self.ev.depth = 0
+        try:
+            return self.ev.call(name, args)
+        except FOLD_ERRORS as e:
+            raise NoVerdict("the evaluator met a construct it does not model (%s)" % type(e).__name__)
+
+    def where(self, cb):
+        """Slots (bucket, position below the fill count) that hold an item with this call-back."""
+        out = []
+        for b, B in enumerate(self.sched["bucket"]):
+            n = B["num_items"]
+            if not isinstance(n, int) or not 0 <= n <= self.a.NCB:
+                continue
+            out.extend((b, k) for k in range(n) if B["item"][k]["cb"] == cb)
+        return out
+
+    def damage(self):
+        """What happened to the ring beyond the judged items: a fill count outside 0..capacity, a pre-stored item that is
+        gone / changed / duplicated, a moved ring position."""
+        a = self.a
+        if self.sched["cur_bucket"] != self.cur:
+            return "cur_bucket becomes %s" % (self.sched["cur_bucket"],)
+        for b, B in enumerate(self.sched["bucket"]):
+            n = B["num_items"]
+            if not isinstance(n, int) or not 0 <= n <= a.NCB:
+                return "bucket %d ends with num_items = %s" % (b, n)
+        for cb, (b, it) in self.pre.items():
+            at = self.where(cb)
+            if len(at) != 1 or at[0][0] != b or dict(self.sched["bucket"][b]["item"][at[0][1]]) != it:
+                return "%s, scheduled before, is %s" % (cb[1].strip("<>"), "no longer in its bucket" if not at else
+                                                        "duplicated" if len(at) > 1 else "changed or moved")
+        return None
+
+    def run_single(self, off):
+        """-> None | text of what differs from: success reported, the item in bucket (cur + off) mod ring, once."""
+        a = self.a
+        cb = ("fn", "<call-back of the scheduled item>")
+        rc = self.call("tdma_schedule", [off, cb, 11, 12, 1313, 5])
+        want = (self.cur + off) % a.NFR
+        bad = []
+        if not isinstance(rc, int) or rc < 0:
+            bad.append("returns %s (wanted: a non-negative value, no frame is full)" % (rc,))
+        at = self.where(cb)
+        if [b for (b, _k) in at] != [want]:
+            bad.append("the item is %s (wanted: once in bucket %d)" % (
+                "not stored" if not at else "stored in bucket(s) %s" % ", ".join(str(b) for (b, _k) in at), want))
+        d = self.damage()
+        if d:
+            bad.append(d)
+        return "; ".join(bad) or None
+
+    def run_set(self, off, pattern):
+        """tdma_schedule_set(off, pattern + END_SET, p3) judged against the stated behaviour: the items behind k markers
+        belong to bucket (cur + off + k) mod ring; the set is refused (negative return value) exactly when one of its
+        items meets a bucket that already holds capacity-many items -- then nothing scheduled before may be lost; else
+        the call reports success and every item is stored once, in its bucket, next to what was there before."""
+        a = self.a
+        ev = self.ev
+        entries = []
+        for i, x in enumerate(tuple(pattern) + ("E",)):
+            it = ev.copy(self.blank)
+            if x == "I":
+                it["cb"] = ("fn", "<call-back of set entry #%d>" % i)
+                it["p1"], it["p2"], it["prio"] = i + 1, 2 * i + 1, i
+            elif x == "E":
+                it["cb"] = END_SET_CB
+            entries.append(it)
+        count = {b: B["num_items"] for b, B in enumerate(self.sched["bucket"])}
+        place, k, refused = {}, 0, None
+        for i, x in enumerate(pattern):
+            if x == "F":
+                k += 1
+                continue
+            b = (self.cur + off + k) % a.NFR
+            if count[b] >= a.NCB:
+                refused = i
+                break
+            count[b] += 1
+            place[i] = b
+        rc = self.call("tdma_schedule_set", [off, Ptr(entries, 0), 4242])
+        bad = []
+        if refused is not None:
+            if not isinstance(rc, int) or rc >= 0:
+                bad.append("returns %s although entry #%d is the %dth item of its frame (wanted: a negative value)" % (
+                    rc, refused, a.NCB + 1))
+        else:
+            if not isinstance(rc, int) or rc < 0:
+                bad.append("returns %s (wanted: a non-negative value, no item exceeds a frame's capacity)" % (rc,))
+            for i, b in sorted(place.items()):
+                at = self.where(entries[i]["cb"])
+                if [x for (x, _k) in at] != [b]:
+                    bad.append("entry #%d is %s (wanted: once in bucket %d)" % (
+                        i, "not stored" if not at else "stored in bucket(s) %s" % ", ".join(str(x) for (x, _k) in at), b))
+                    break
+            if not bad:
+                for b, B in enumerate(self.sched["bucket"]):
+                    if B["num_items"] != count[b]:
+                        bad.append("bucket %d ends with num_items = %s (wanted: %d)" % (b, B["num_items"], count[b]))
+                        break
+            if not bad and self.where(END_SET_CB):
+                bad.append("the end-of-set marker is stored as an item")
+        d = self.damage()
+        if d:
+            bad.append(d)
+        return "; ".join(bad) or None
+
+
+def fold_stage(name, fn):
+    """Run witness evaluations; what the evaluator cannot follow is `no verdict`, never a violation."""
+    try:
+        return fn()
+    except NoVerdict as e:
+        raise AnalysisError("%s(): the call cannot be evaluated on its witnesses (%s) -- unclassifiable" % (name, e))
+
+
+def r10_offset_domain(a):
+    """C08.R10 -- decides, at the entry of the scheduling calls, the clause "an item scheduled N frames ahead (N below
+    the scheduler depth of 25) is executed ... exactly N frame advances later" together with "exceeding a frame's
+    capacity is reported as an error": EVERY offset of the ring's domain 0 .. ARRAY_SIZE(bucket)-1 must be accepted
+    while the target frame has room.  tdma_schedule() is evaluated (CEval: a fold of its clang AST, helpers followed)
+    for all ring positions x all offsets on an empty ring: it must report success (a non-negative value) and leave the
+    item, once, in bucket (cur_bucket + offset) mod ring.  tdma_schedule_set() likewise for every offset of its first
+    frame, with sets of up to three frames whose last frame reaches the boundary offset ring-1.  A difference is a
+    concrete legal call whose item never runs (or runs in another frame).  How a range check is written (which constant,
+    which comparison, in the function or a helper) is irrelevant: only the outcome per offset is judged; offsets of a
+    revolution or more are outside the quantifier and not evaluated."""
+    R = "C08.R10"
+    ring = a.NFR
+
+    def fold():
+        W = SchedWorld(a)
+        bad = {"tdma_schedule": None, "tdma_schedule_set": None}
+        runs = 0
+        for cur in range(ring):
+            for off in range(ring):
+                W.reset(cur, {})
+                runs += 1
+                t = W.run_single(off)
+                if t and bad["tdma_schedule"] is None:
+                    bad["tdma_schedule"] = "tdma_schedule(frame_offset=%d, ...) at cur_bucket=%d on an empty ring: %s" % (off, cur, t)
+                pattern = "I" + "FI" * min(2, ring - 1 - off)
+                W.reset(cur, {})
+                runs += 1
+                t = W.run_set(off, pattern)
+                if t and bad["tdma_schedule_set"] is None:
+                    bad["tdma_schedule_set"] = "set %s scheduled with frame_offset=%d at cur_bucket=%d on an empty ring: %s" % (
+                        pattern_text(pattern), off, cur, t)
+        return runs, bad
+    runs, bad = fold_stage("tdma_schedule / tdma_schedule_set", fold)
+    a.L.floor(R, "concrete evaluations of tdma_schedule / tdma_schedule_set over (ring position, offset)", runs, 2 * ring * ring)
+    want = "success and the item(s) in bucket (cur_bucket + offset [+ k]) mod %d, for all %d x %d (ring position, offset) pairs" % (
+        ring, ring, ring)
+    a.ob(R, "tdma_schedule", "tdma_schedule(): every frame offset 0..%d is accepted while the target frame has room: success is "
+         "reported and the item is stored in bucket (cur_bucket + frame_offset) mod %d (evaluated for every ring position x "
+         "offset on an empty ring)" % (ring - 1, ring), want, bad["tdma_schedule"] or want, bad["tdma_schedule"] is None,
+         a.tu.func("tdma_schedule"))
+    a.ob(R, "tdma_schedule_set", "tdma_schedule_set(): every set whose frames lie at offsets 0..%d is accepted while the frames "
+         "have room: success is reported and the items behind k markers are stored in bucket (cur_bucket + frame_offset + k) "
+         "mod %d (evaluated for every ring position x first offset on an empty ring, last frame up to the boundary offset)" % (
+             ring - 1, ring), want, bad["tdma_schedule_set"] or want, bad["tdma_schedule_set"] is None,
+         a.tu.func("tdma_schedule_set"))
+
+
+def r11_set_capacity(a):
+    """C08.R11 -- decides "exceeding a frame's capacity is reported as an error" in both directions for sets, and with
+    it "a multi-frame set places the items of its k-th frame k frames after its first" on frames that are exactly full:
+    a set is refused if and only if one of its ITEMS meets a frame that already holds ARRAY_SIZE(item) items.  An
+    end-of-frame or end-of-set marker handled while the current frame is exactly full places nothing and must not
+    abort the set.  tdma_schedule_set() is evaluated (CEval) at three (ring position, offset) points, one of them
+    wrapping over the ring end, for every number k = 0..capacity of items already in the first frame, on the witness sets
+    {item x (capacity-k), END_FRAME, item} (the set fills the frame exactly, then moves on; k = capacity: an empty frame
+    on a full bucket), {item x (capacity-k)} (end of set on an exactly full frame), {item x (capacity-k+1)} (one item
+    too many: must be refused, nothing scheduled before may be lost) and {item, END_FRAME, END_FRAME, item} whose empty
+    middle frame is full.  Judged is the outcome only: return value's sign, where every item ends up, that the items
+    scheduled before are all still there."""
+    R = "C08.R11"
+    ring, cap = a.NFR, a.NCB
+    if ring < 4:
+        raise AnalysisError("ring of %d frames is too short for the witness sets" % ring)
+    points = [(0, 0), (ring - 1, 1), (ring // 2, ring - 3)]
+
+    def fold():
+        W = SchedWorld(a)
+        bad = {"marker": None, "fit": None, "over": None}
+        runs = 0
+
+        def one(cls, cur, off, pattern, fills):
+            W.reset(cur, fills)
+            t = W.run_set(off, pattern)
+            if t and bad[cls] is None:
+                held = ", ".join("bucket %d already holds %d item(s)" % (b, n) for b, n in sorted(fills.items()) if n)
+                bad[cls] = "set %s scheduled with frame_offset=%d at cur_bucket=%d while %s: %s" % (
+                    pattern_text(pattern), off, cur, held or "the ring is empty", t)
+            return 1
+        for (cur, off) in points:
+            b0 = (cur + off) % ring
+            for k in range(cap + 1):
+                runs += one("marker", cur, off, "I" * (cap - k) + "FI", {b0: k})
+                runs += one("fit", cur, off, "I" * (cap - k), {b0: k})
+                runs += one("over", cur, off, "I" * (cap - k + 1), {b0: k})
+            runs += one("marker", cur, off, "IFFI", {(b0 + 1) % ring: cap})
+        return runs, bad
+    runs, bad = fold_stage("tdma_schedule_set", fold)
+    a.L.floor(R, "concrete evaluations of tdma_schedule_set on exactly full / over-full frames", runs, len(points) * (3 * cap + 4))
+    f = a.tu.func("tdma_schedule_set")
+    want = "accepted, every item stored in its frame, in all evaluated sets"
+    a.ob(R, "tdma_schedule_set", "tdma_schedule_set(): an end-of-frame marker handled while the frame it leaves (or passes "
+         "through) holds exactly %d items does not abort the set: the following frames are scheduled (evaluated for every "
+         "number of items already in the frame)" % cap, want, bad["marker"] or want, bad["marker"] is None, f)
+    a.ob(R, "tdma_schedule_set", "tdma_schedule_set(): a set whose last item fills its frame to exactly %d items is accepted "
+         "(the end-of-set marker places nothing)" % cap, want, bad["fit"] or want, bad["fit"] is None, f)
+    want = "a negative return value, every item scheduled before still in its bucket"
+    a.ob(R, "tdma_schedule_set", "tdma_schedule_set(): a set with one item more than its frame has room for is refused with "
+         "a negative value and loses none of the items scheduled before", want, bad["over"] or want, bad["over"] is None, f)
+
+
+# ---------------------------------------------------------------- R12 the GSM-time feeder keeps its list ordered
+
+GSM = "layer1/sched_gsmtime.c"
+GSM_FRAMES = (40, 43, 47)
+GSM_LEAD = 6
+
+
+def gsmtime_tu(a):
+    tu = a.tus.get(GSM)
+    if tu is not None:
+        return tu
+    tmp = tempfile.mkdtemp(prefix="vsa-c08-", dir=os.environ.get("TMPDIR") or "/var/tmp")
+    try:
+        with open(os.path.join(tmp, "inttypes.h"), "w") as f:
+            f.write(INTTYPES_STUB)
+        return TU(a.L.repo, "fw", GSM, L=a.L, extra_flags=("-I" + tmp,))
+    finally:
+        shutil.rmtree(tmp, ignore_errors=True)
+
+
+def gsm_history(tu, events):
+    """One history of the one-shot layer, evaluated (CEval): sched_gsmtime_init(); event k = (frame it is registered in,
+    GSM frame number F it is registered for) is passed to sched_gsmtime() before the frame's sched_gsmtime_execute(fn);
+    fn runs over consecutive frames like the tail of l1_sync().  tdma_schedule_set() is the observed boundary.
+    -> (return values of sched_gsmtime, [(fn, frame_offset, event index | None, p3)] hand-overs)."""
+    ev = CEval(tu, max_steps=400000)
+    ev.lazy_globals = True
+    sets = [[Rec()] for _ in events]
+    now = [None]
+    seen = []
+
+    def handed(args):
+        if len(args) != 3:
+            raise NoVerdict("tdma_schedule_set() called with %d arguments" % len(args))
+        off, si, p3 = args
+        k = None
+        for i, s in enumerate(sets):
+            if isinstance(si, Ptr) and si.obj is s and si.key == 0:
+                k = i
+        seen.append((now[0], off, k, p3))
+        return 0
+    ev.externs["tdma_schedule_set"] = handed
+    ev.call("sched_gsmtime_init", [])
+    rcs = {}
+    start = min(F for (_t, F) in events) - GSM_LEAD
+    for fn in range(start, max(F for (_t, F) in events) + 3):
+        now[0] = fn
+        for k, (t, F) in enumerate(events):
+            if max(t, start) == fn:
+                rcs[k] = ev.call("sched_gsmtime", [Ptr(sets[k], 0), F, 500 + k])
+        ev.call("sched_gsmtime_execute", [fn])
+    return rcs, seen
+
+
+def r12_gsmtime_feeder(a):
+    """C08.R12 -- decides, for the anchored feeder of the scheduler (layer1/sched_gsmtime.c: the one-shot layer through
+    which RACH / frequency-change sets reach tdma_schedule_set()), the clause "every scheduled item is executed exactly
+    once, in its frame": what happens to an event registered for GSM frame F must not depend on which other events are
+    pending.  sched_gsmtime_init / sched_gsmtime / sched_gsmtime_execute are evaluated (CEval; the header-only
+    linuxlist.h primitives and container_of() are followed, nothing is modelled by name) on witness histories: every
+    sequence of two and three registrations over the frames (40, 43, 47) -- all registration orders, equal frames
+    included -- and histories that register an event after an earlier one was handed over (slot re-use), fn running over
+    consecutive frames.  An event registered alone defines its frame: it is handed to tdma_schedule_set exactly once,
+    with its own set and p3; fn + frame_offset of that call is the frame its set starts in.  In every other history each
+    event must be handed over exactly once, with its own parameters, for the same frame.  This is what the pending
+    list's order is for: sched_gsmtime_execute stops at the first later event, so an insertion that puts an earlier
+    event behind a later one loses it.  Whether the list is kept by insert-before-first-greater, insert-after-predecessor
+    or without the early exit is irrelevant."""
+    R = "C08.R12"
+    tu = gsmtime_tu(a)
+    F = tu.rel
+    for name, n in (("sched_gsmtime", 3), ("sched_gsmtime_execute", 1), ("sched_gsmtime_init", 0)):
+        f = tu.func(name)
+        a.L.fn(F, name)
+        if len(tu.fparams(f)) != n:
+            raise AnalysisError("%s(): expected %d parameter(s) -- unclassifiable" % (name, n))
+    fx = tu.functions.get("tdma_schedule_set")
+    if fx is None or any(kind(c) == "CompoundStmt" for c in kids(fx)):
+        raise AnalysisError("sched_gsmtime.c: tdma_schedule_set() is no longer an external function there -- unclassifiable")
+
+    def run(events):
+        try:
+            return gsm_history(tu, events)
+        except FOLD_ERRORS as e:
+            raise NoVerdict("the evaluator met a construct it does not model (%s)" % type(e).__name__)
+
+    def describe(events):
+        return ", ".join("fn %d%s" % (Fk, "" if t is None else " (registered in frame %d)" % t) for (t, Fk) in events)
+
+    def fold():
+        target = {}
+        alone = None
+        runs = 0
+        for Fk in GSM_FRAMES:
+            rcs, seen = run([(0, Fk)])
+            runs += 1
+            mine = [c for c in seen if c[2] == 0]
+            if rcs.get(0) != 0 or len(seen) != 1 or len(mine) != 1 or mine[0][3] != 500 or not isinstance(mine[0][1], int):
+                if alone is None:
+                    alone = "an event registered alone for fn %d: sched_gsmtime() returns %s, tdma_schedule_set() is called %d " \
+                            "time(s)%s" % (Fk, rcs.get(0), len(seen), "" if len(mine) == len(seen) and all(
+                                c[3] == 500 for c in mine) else " (not with the event's own set / p3)")
+                continue
+            target[Fk] = mine[0][0] + mine[0][1]
+        if alone is not None:
+            return runs, alone, None
+        hist = []
+        for n in (2, 3):
+            for seq in itertools.product(GSM_FRAMES, repeat=n):
+                hist.append([(0, Fk) for Fk in seq])
+        lo, mid, hi = GSM_FRAMES
+        hist.append([(0, lo), (0, hi), (lo - 1, mid)])          # registered after the first event was handed over
+        hist.append([(0, hi), (0, lo), (lo - 1, mid)])
+        hist.append([(0, lo), (lo - 1, hi), (mid - 1, hi)])
+        bad = None
+        for events in hist:
+            rcs, seen = run(events)
+            runs += 1
+            for k, (t, Fk) in enumerate(events):
+                mine = [c for c in seen if c[2] == k]
+                text = None
+                if rcs.get(k) != 0:
+                    text = "sched_gsmtime() returns %s for it" % (rcs.get(k),)
+                elif len(mine) != 1:
+                    text = "it is %s" % ("never handed to tdma_schedule_set()" if not mine else
+                                         "handed to tdma_schedule_set() %d times" % len(mine))
+                elif mine[0][3] != 500 + k:
+                    text = "it is handed over with p3 = %s instead of its own" % (mine[0][3],)
+                elif not isinstance(mine[0][1], int) or mine[0][0] + mine[0][1] != target[Fk]:
+                    text = "its set is scheduled in frame %s with offset %s (wanted: to start in frame %d as when registered alone)" % (
+                        mine[0][0], mine[0][1], target[Fk])
+                if text and bad is None:
+                    bad = "events registered in the order %s: event #%d (fn %d): %s" % (
+                        describe([(None if tt == 0 else tt, ff) for (tt, ff) in events]), k, Fk, text)
+            if bad is None and any(c[2] is None for c in seen):
+                bad = "events registered in the order %s: tdma_schedule_set() is called with a set that was not registered" % (
+                    describe([(None if tt == 0 else tt, ff) for (tt, ff) in events]))
+        return runs, None, bad
+    try:
+        runs, alone, bad = fold()
+    except NoVerdict as e:
+        raise AnalysisError("sched_gsmtime.c: the one-shot layer cannot be evaluated on its witness histories (%s) -- "
+                            "unclassifiable" % e)
+    a.L.floor(R, "witness histories of the GSM-time one-shot layer evaluated", runs, len(GSM_FRAMES))
+    want = "handed to tdma_schedule_set exactly once, with its own set and p3"
+    a.L.ob(R, F, "sched_gsmtime_execute", "sched_gsmtime() + sched_gsmtime_execute(): an event registered alone is handed to "
+           "tdma_schedule_set() exactly once with its own set and p3 (evaluated over consecutive frames)", want, alone or want,
+           alone is None, tu.func("sched_gsmtime_execute").get("_line"))
+    if alone is None:
+        a.L.floor(R, "witness histories with two / three pending events", runs - len(GSM_FRAMES),
+                  len(GSM_FRAMES) ** 2 + len(GSM_FRAMES) ** 3)
+        want = "every event handed over exactly once, for the frame it gets when registered alone, in all evaluated histories"
+        a.L.ob(R, F, "sched_gsmtime", "sched_gsmtime() keeps the pending events in the order sched_gsmtime_execute() relies on: "
+               "with two or three events pending, registered in any order, every event is handed to tdma_schedule_set() exactly "
+               "once and for its own frame", want, bad or want, bad is None, tu.func("sched_gsmtime").get("_line"))
+
+
 # ---------------------------------------------------------------- who-may-write scan
 
 INTTYPES_STUB = """#ifndef _VERIF_INTTYPES_H
@@ -4656,6 +5256,8 @@ RING_RECORDS = ("tdma_sched_bucket", "tdma_scheduler")
 def scan_writers(a, relfile, incdir, seen):
     """Accesses to the scheduler ring in another TU that are not plain reads."""
     tu = TU(a.L.repo, "fw", relfile, L=a.L, extra_flags=("-I" + incdir,))
+    if relfile == GSM:
+        a.tus[relfile] = tu               # (R12 evaluates this translation unit)
     found = []
     for fname, fd in tu.functions.items():
         if not any(kind(c) == "CompoundStmt" for c in kids(fd)):
@@ -4756,6 +5358,9 @@ def run(L, tier):
     L.stage(r6_prio_width, a, sort)
     L.stage(r7_reset, a)
     L.stage(r9_order_initialised, a, sort)
+    L.stage(r10_offset_domain, a)
+    L.stage(r11_set_capacity, a)
+    L.stage(r12_gsmtime_feeder, a)
     if a.folds:
         L.structural("C08.R2/R3: ring indices outside the normal form (cur_bucket + x) mod %d are that value for every "
                      "ring position and every offset (exhaustive fold of the finite domain)" % a.NFR, ring_proofs, a)
